@@ -18,7 +18,8 @@ namespace {
   {
     if (next >= inputs.size()) { std::printf("EXHAUSTED %s\n", name); std::exit(3); }
     const In &i = inputs[next++];
-    if (i.name != name) { std::printf("ORDER wanted %s got %s\n", name, i.name.c_str()); std::exit(3); }
+    std::string want(name); for (char &c : want) if (c == ' ') c = '_'; if (want.empty()) want = "_";
+    if (i.name != want) { std::printf("ORDER wanted %s got %s\n", name, i.name.c_str()); std::exit(3); }
     return i;
   }
   double conc_uf(unsigned id, const double *x, int n)
